@@ -65,12 +65,54 @@ theorem rej_tupleStruct {ts : Targets} (hS : ∀ t ∈ Targets.toList ts, Rej t)
 
 /-! ### maps -/
 
+theorem pairClaim_err {k v : Claim} {e : Fail} (h : pairClaim k v = .error e) :
+    (∃ e', k = .error e') ∨ (∃ e', v = .error e') := by
+  unfold pairClaim at h
+  split at h
+  · exact .inl ⟨_, rfl⟩
+  · exact .inr ⟨_, rfl⟩
+  · cases h
+  · cases h
+
+theorem castVariantStr_err : ∀ (vs : TVariants) (b : Bytes) (e : Fail), castVariantStr vs b = .error e →
+    (strVariant vs b).isOk = false
+  | .nil, b, e, _ => by simp [strVariant, fail, R.isOk]
+  | .cons n k rest, b, e, h => by
+    unfold castVariantStr at h
+    unfold strVariant
+    split at h
+    · rename_i hb
+      simp only [hb, if_true]
+      cases k <;> simp [must, fail, R.isOk] at h ⊢
+    · rename_i hb
+      simp only [hb, Bool.false_eq_true, if_false]
+      exact castVariantStr_err rest b e h
+
+/-- a field name as map key: where `mapKeyClaim` says the key cannot take it, serde's `StrDeserializer` fails -/
+theorem mapKeyClaim_err {k : Target} {name : String} {e : Fail} (h : mapKeyClaim k name = .error e) :
+    (strDeAs k name).isOk = false := by
+  cases k <;> simp only [mapKeyClaim, must, reduceCtorEq] at h <;> try (simp [strDeAs, rejected, fail, R.isOk]; done)
+  case char =>
+    simp only [strDeAs]
+    split at h
+    · cases h
+    · rename_i hne
+      split
+      · rename_i c hc; exact absurd hc (hne c)
+      · simp [rejected, fail, R.isOk]
+  case «enum» byIndex vs =>
+    unfold strDeAs
+    cases byIndex
+    · simp only [Bool.false_eq_true, if_false] at h ⊢
+      exact castVariantStr_err vs _ e h
+    · simp [rejected, fail, R.isOk]
+
 theorem structAsMap_rej {k v : Target} (hS : Rej v) :
     ∀ (fs : ArrFields) (i : Nat) (vals : List (String × LVal)) (e : Fail),
     decodeFieldsAt fs i = .ok vals → newFields Fixes.all fs = .ok () → physicalFields fs = true →
     utf8OkFields (LFields.ofList vals) = true →
     allStructAsMap (fun c w => noKnown v c w) fs (LFields.ofList vals) = true →
-    claimStructAsMap (mapKeyOf k) (fun c w => cast v c w) fs (LFields.ofList vals) = .error e →
+    claimStructAsMap (mapKeyClaim k) (fun c w => cast v c w) fs (LFields.ofList vals) = .error e →
     (fs.toList.mapM fun (p : FieldMeta × Arr) => do
         let kk ← strDeAs k p.1.name
         let vv ← readAs Fixes.all v p.2 i
@@ -88,20 +130,10 @@ theorem structAsMap_rej {k v : Target} (hS : Rej v) :
     simp only [LFields.ofList, allStructAsMap, Bool.and_eq_true] at hk
     rw [ArrFields.toList, List.mapM_cons]
     rcases consClaim_err hc with ⟨e', h1⟩ | ⟨e', h2⟩
-    · cases hcv : cast v a w with
-      | ok o => rw [hcv] at h1; cases o <;> simp at h1
-      | error err =>
-        exact bind_fails_left (bind_fails fun _ _ => bind_fails_left (hS a i w err hw hna hp.1 hu.1 hk.1 hcv))
+    · rcases pairClaim_err h1 with ⟨e'', hke⟩ | ⟨e'', hve⟩
+      · exact bind_fails_left (bind_fails_left (mapKeyClaim_err hke))
+      · exact bind_fails_left (bind_fails fun _ _ => bind_fails_left (hS a i w e'' hw hna hp.1 hu.1 hk.1 hve))
     · exact bind_fails fun _ _ => bind_fails_left (structAsMap_rej hS rest i r e' hr hnr hp.2 hu.2 hk.2 h2)
-
-theorem pairClaim_err {k v : Claim} {e : Fail} (h : pairClaim k v = .error e) :
-    (∃ e', k = .error e') ∨ (∃ e', v = .error e') := by
-  unfold pairClaim at h
-  split at h
-  · exact .inl ⟨_, rfl⟩
-  · exact .inr ⟨_, rfl⟩
-  · cases h
-  · cases h
 
 theorem readRange_pairs_fails {f1 f2 : Nat → R LVal} {g1 g2 : Nat → R DVal} {bad1 bad2 : LVal → Prop}
     (h1 : ∀ j v, f1 j = .ok v → bad1 v → (g1 j).isOk = false) (h2 : ∀ j v, f2 j = .ok v → bad2 v → (g2 j).isOk = false) :
@@ -158,10 +190,7 @@ theorem rej_map {k v : Target} (hK : Rej k) (hV : Rej v) : Rej (.map k v) := by
     · simp [noKnown] at hk
     · simp only [cast] at hc
       simp only [noKnown] at hk
-      have hc' : andThenE (claimStructAsMap (mapKeyOf k) (fun c w => cast v c w) fs (LFields.ofList vals))
-          (fun es => must (.map (DEntries.ofList es))) = .error e := by
-        cases k <;> first | exact hc | simp [na] at hc
-      have hcl := andThenE_err (fun _ _ => must_ne_err) hc'
+      have hcl := andThenE_err (fun _ _ => must_ne_err) hc
       unfold physical at hp
       simp only [utf8Ok] at hu
       have := structAsMap_rej (k := k) hV fs i vals e hvals (new_struct_inv hn) hp hu hk hcl
@@ -206,10 +235,23 @@ def KRej (k : VKind) : Prop :=
     physical child = true → utf8Ok lv = true → noKnownKind k child lv = true → castKind k child lv = .error e →
     (readKind Fixes.all k (some (child, off))).isOk = false
 
+/-- only the Null reader answers `deserialize_unit` -/
+theorem scalar_unit_fails (a : Arr) (i : Nat) (h : isNullArr a = false) :
+    (scalar Fixes.all .unit a i >>= accept .unit).isOk = false := by
+  cases a <;> simp only [isNullArr, reduceCtorEq] at h <;>
+    (unfold scalar; (repeat' split) <;> simp_all [notImpl, fail, bind, Except.bind, R.isOk])
+
 theorem krej_unit : KRej .unit := by
   intro child off lv e h hn hp hu hk hc
   simp only [castKind] at hc
-  split at hc <;> simp [must, na] at hc
+  split at hc
+  · simp [must] at hc
+  · rename_i hnn
+    cases child with
+    | null len =>
+      obtain ⟨rfl, _⟩ := null_get h
+      simp [isNullArr, LVal.isNull] at hnn
+    | _ => exact scalar_unit_fails _ off rfl
 
 theorem krej_newtype {t : Target} (hS : Rej t) : KRej (.newtype t) := by
   intro child off lv e h hn hp hu hk hc
@@ -286,27 +328,27 @@ theorem rej_enum {byIndex : Bool} {vs : TVariants} (hV : ∀ p ∈ TVariants.toL
     · cases hty : isUtf8Ty ty <;>
         simp [readAs, stringElem, hty, hg, getRequired, bind, Except.bind, fail, notImpl, R.isOk]
     · cases hty : isUtf8Ty ty
-      · simp [cast, bytesVal, hty, na] at hc
+      · simp [readAs, stringElem, hty, notImpl, fail, R.isOk]
       · simp only [cast, bytesVal, hty, if_true, isStringLike, Bool.true_and] at hc
         cases byIndex
         · simp only [Bool.not_false, if_true] at hc
           simp only [readAs, stringElem, hty, if_true, hg, getRequired, bind, Except.bind, pure, Except.pure,
             Bool.false_eq_true, if_false]
           exact readVariantAsBytes_rej vs b e hc
-        · simp [na] at hc
+        · simp [readAs, stringElem, hty, hg, getRequired, bind, Except.bind, pure, Except.pure, fail, R.isOk]
   | bytesView ty v views buffers =>
     rcases view_get h hu with ⟨rfl, hg⟩ | ⟨b, rfl, hg⟩
     · cases hty : isUtf8View ty <;>
         simp [readAs, stringElem, hty, hg, getRequired, bind, Except.bind, fail, notImpl, R.isOk]
     · cases hty : isUtf8View ty
-      · simp [cast, bytesVal, hty, na] at hc
+      · simp [readAs, stringElem, hty, notImpl, fail, R.isOk]
       · simp only [cast, bytesVal, hty, if_true, isStringLike, Bool.true_and] at hc
         cases byIndex
         · simp only [Bool.not_false, if_true] at hc
           simp only [readAs, stringElem, hty, if_true, hg, getRequired, bind, Except.bind, pure, Except.pure,
             Bool.false_eq_true, if_false]
           exact readVariantAsBytes_rej vs b e hc
-        · simp [na] at hc
+        · simp [readAs, stringElem, hty, hg, getRequired, bind, Except.bind, pure, Except.pure, fail, R.isOk]
   | dictionary ks vs' =>
     rcases dict_get h hn hp hu with ⟨rfl, hs⟩ | ⟨b, rfl, _, hg⟩
     · have hf := dictGetStr_null hn hs
@@ -317,7 +359,7 @@ theorem rej_enum {byIndex : Bool} {vs : TVariants} (hV : ∀ p ∈ TVariants.toL
       · simp only [Bool.not_false, if_true] at hc
         simp only [readAs, stringElem, hg, bind, Except.bind, Bool.false_eq_true, if_false]
         exact readVariantAsBytes_rej vs b e hc
-      · simp [na] at hc
+      · simp [readAs, stringElem, hg, bind, Except.bind, fail, R.isOk]
   | _ => simp [readAs, stringElem, notImpl, fail, R.isOk]
 
 end SaModel.Read
